@@ -294,6 +294,9 @@ class C20(Prop):
                     mat = leaves.make(("ten", bnames, (k, k), "real", tuple(float(x_) for x_ in m0.reshape(-1)), False))
                     vec = leaves.make(("ten", bnames, (k,), "real", tuple(float(x_) for x_ in np.broadcast_to(v, batch + (k,)).reshape(-1)), False))
                     ins = OrderedDict((n_, Bint[sz]) for n_, sz in bnames)
+                    # fully masked tables (every slice all -inf) and one holding +inf: the stabilising shift is degenerate
+                    masked = leaves.make(("ten", bnames, (k, k), "real", tuple(float("-inf") for _ in range(m0.size)), False))
+                    posinf = leaves.make(("ten", bnames, (k, k), "real", tuple(float("inf") if j_ % 3 == 0 else 0.5 for j_ in range(m0.size)), False))
                     ins_x = OrderedDict(list(ins.items()) + [("zz_x", Reals[k])])
                     calls = [
                         lambda: ops.cholesky(mat),
@@ -306,6 +309,10 @@ class C20(Prop):
                         lambda: ops.triangular_solve(vec[..., None], mat),
                         lambda: ops.triangular_inv(mat),
                         lambda: ops.logsumexp(mat, -1),
+                        lambda: ops.logsumexp(masked, -1),
+                        lambda: ops.logsumexp(masked, None),
+                        lambda: Tensor(masked, ins).reduce(ops.logaddexp),
+                        lambda: ops.logsumexp(posinf, -1),
                         lambda: ops.qr(mat),
                     ]
                     for c_ in calls:
